@@ -211,8 +211,68 @@ fn flip_case(rng: &mut Rng, tmax: usize) -> String {
     random_case(rng, tmax)
 }
 
+/// Two (or three) almost separate chains whose path weights drift apart by hundreds of nats: the terms of one
+/// log-sum-exp in forward/backward then differ by 650..780 nats, i.e. on both sides of the point where `exp` underflows
+/// (709.78) and of the fast exponential's cut-off (seeded defect C14-5: cut-off lowered to -745 => NaN in that window).
+/// The likelihood itself stays an ordinary number (the heavy chain dominates).
+fn farapart_case(rng: &mut Rng) -> String {
+    // (d, heavy numerator): emission of the frequent symbol in the heavy chain is a/d, in the light chain (d-a)/d
+    let (d, a): (usize, usize) = *rng.pick(&[(10usize, 9usize), (10, 9), (100, 99), (4, 3), (5, 4), (10, 8)]);
+    let per_step = ((a as f64) / ((d - a) as f64)).ln();
+    let target = 640.0 + rng.below(150) as f64; // nats between the two chains at the end
+    let t = ((target / per_step).ceil() as usize).max(2);
+    let three = rng.chance(1, 4);
+    let s = if three { 3 } else { 2 };
+    let mut init = vec![d / 2, d - d / 2];
+    let mut trans = vec![vec![d, 0], vec![0, d]];
+    let mut emit = vec![vec![a, d - a], vec![d - a, a]];
+    if three {
+        init = vec![d / 2, d - d / 2, 0];
+        // a third state reachable from the light chain only
+        let leak = 1.min(d - 1);
+        trans = vec![vec![d, 0, 0], vec![0, d - leak, leak], vec![0, 0, d]];
+        emit.push(vec![d - a, a]);
+    }
+    // observations: the frequent symbol, with a handful of flips
+    let flips = rng.below(4);
+    let mut obs = vec![0usize; t];
+    for _ in 0..flips {
+        let i = rng.below(t);
+        obs[i] = 1;
+    }
+    let kind = *rng.pick(&["plain", "optnone", "optend"]);
+    let end: Option<Vec<usize>> = if kind == "optend" { Some((0..s).map(|_| 1 + rng.below(d)).collect()) } else { None };
+    line(kind, d, &init, &trans, &emit, end.as_deref(), &obs)
+}
+
+/// long sequences over dense models (no zero cells): hundreds of log-space additions in a row
+fn long_dense_case(rng: &mut Rng) -> String {
+    let s = 2 + rng.below(2);
+    let m = 2 + rng.below(2);
+    let d = *rng.pick(&[4usize, 6, 10, 12]);
+    let t = 60 + rng.below(240);
+    let dense = |rng: &mut Rng, n: usize| -> Vec<usize> {
+        let mut r = vec![1usize; n];
+        for _ in 0..(d - n.min(d)) {
+            r[rng.below(n)] += 1;
+        }
+        r
+    };
+    let init = dense(rng, s);
+    let trans: Vec<Vec<usize>> = (0..s).map(|_| dense(rng, s)).collect();
+    let emit: Vec<Vec<usize>> = (0..s).map(|_| dense(rng, m)).collect();
+    let obs: Vec<usize> = (0..t).map(|_| rng.below(m)).collect();
+    let kind = *rng.pick(&["plain", "optnone", "optend"]);
+    let end: Option<Vec<usize>> = if kind == "optend" { Some((0..s).map(|_| 1 + rng.below(d)).collect()) } else { None };
+    line(kind, d, &init, &trans, &emit, end.as_deref(), &obs)
+}
+
 pub fn gen(tier: &str, rng: &mut Rng, out: &mut Vec<String>) {
     let (n, tmax) = if tier == "thorough" { (80_000, 10) } else { (3_000, 8) };
+    let nlong = if tier == "thorough" { 600 } else { 60 };
+    for i in 0..nlong {
+        out.push(if i % 3 == 2 { long_dense_case(rng) } else { farapart_case(rng) });
+    }
     for i in 0..n {
         // every fifth case: an end vector that changes the arg-max
         out.push(if i % 5 == 4 { flip_case(rng, tmax) } else { random_case(rng, tmax) });
